@@ -17,7 +17,8 @@ LEVEL_TEXT = (
     "Each generated case is executed through ~20 real code paths (3 outputs x 4 entry points on the pandas materializer, narwhals "
     "on the same pandas frame with 4 outputs, narwhals on a pyarrow table with 4 outputs, with and without nulls/drop policy) and "
     "every result is rendered dense and compared with the pandas/numpy reference: same shape, same column names from the "
-    "attached spec, NaN-aware equal values. Held-on-observed over thousands of cases x paths."
+    "attached spec, NaN-aware equal values; a caller-supplied drop set is passed on every path, and one materializer object is made to "
+    "serve two different requests. Held-on-observed over thousands of cases x paths."
 )
 LEVEL_NOTE = "trusts: numpy allclose(rtol 1e-9); pyarrow/narwhals conversions of the input data themselves"
 RULE = (
